@@ -169,6 +169,13 @@ func Generate(r *rng.R, o Opts) *Program {
 			}
 			fileBodies[e.file] = append(fileBodies[e.file], decl)
 		}
+		if r.Chance(1, 3) {
+			// a variable nobody reads whose initialiser's only call goes through a value of a named function type:
+			// the initialiser has an effect all the same and must run, in its place
+			g.f("init:unused-var-called-through-named-func-type")
+			fi := r.Intn(nfiles)
+			fileBodies[fi] = append(fileBodies[fi], fmt.Sprintf("type nf func(int) int\n\nvar nfv nf = y.Y\n\nvar unused = nfv(%d)", g.next()))
+		}
 		for fi := 0; fi < nfiles; fi++ {
 			var b strings.Builder
 			fmt.Fprintf(&b, "package %s\n\nimport (\n\t\"seqprog/y\"\n", pkgName)
